@@ -19,7 +19,7 @@ EXPLANATION = (
     "`code & 0xFF00 == 0`; R4 the DESCRIPTIONS literal, evaluated as a first-match function over all 65536 codes, "
     "equals the CiA 301 error class table; get_desc has the loop shape the evaluation assumes; R5 wait(): snapshot "
     "and wait inside the condition, None on unchanged size or passed deadline, filter is `emcy_code is None or "
-    "emcy.code == emcy_code`; R6 log and active are never aliased and only on_emcy/reset rebind them."
+    "emcy.code == emcy_code`; R6 log and active are never aliased and only on_emcy/reset rebind them. R8 no class-level mutable object is mutated in place by instances (each node/client/map/dictionary has its own state)."
 )
 ASSUMPTIONS = [
     "not decided: which of several concurrently arriving entries a waiting caller is handed (schedule dependent)",
@@ -220,6 +220,10 @@ def run(chk):
                         if mname not in ("__init__", "on_emcy", "reset"):
                             chk.bad("R6", f"{EM}:EmcyConsumer.{mname} | writer of {t}", m.loc(n), "only __init__, on_emcy and reset may rebind the lists")
     chk.ok("R6", f"{EM}:EmcyConsumer | writers of log/active", f"{EM}:{cls.node.lineno}", "scanned all methods")
+
+    # ------------------------------------------------------------------ R8 instances are independent (shared clause)
+    from . import shared as _shared
+    _shared.isolation(chk, "R8", rels=['canopen/emcy.py'])
 
 
 def _is_reset_pred(ff, e, code_var):
